@@ -418,6 +418,10 @@ example : (changeTagsOps 1 exSnap true 2).length = 2 := by decide
 example : accept_rewrite1 exRepo 1 [.removeSnap 1, .saveSnap 2 exSnap] = false := by decide
 example : accept_rewrites [] exRepo none [.saveSnap 2 exSnap, .removeSnap 1] = true := by decide
 example : accept_rewrites [] exRepo none [.removeSnap 1, .saveSnap 2 exSnap] = false := by decide
+-- the save of the new snapshot FAILED (a failed operation leaves no event): the removal of the old
+-- one is then outside the language — "remove(old) only after save(new) succeeded"
+example : accept_rewrites [] exRepo none [.removeSnap 1] = false := by decide
+example : accept_rewrite1 exRepo 1 [.removeSnap 1] = false := by decide
 -- a rewrite with uploads: new tree blob 8 in pack 101, indexed by 201, then the snapshot, then forget
 def exBlob2 : Blob := ⟨1, 8, 0, 33⟩
 example : (filterAndReplaceOps 1 exSnap [.savePack 101 [exBlob2], .saveIndex 201 [(101, [exBlob2])]]
